@@ -1,5 +1,5 @@
 (* Tree/RangeProofsMovePos.v — C07: move_element_here_at inside the SAME parent (Ops.move_element_position with the bound
-   `pos < end of range` of fix 4d404e9): taking any child out and putting an element called `name` back at a target index
+   `pos < end of range` of fix fd5588f): taking any child out and putting an element called `name` back at a target index
    lo <= pos < hi of the range computed (with the child still present) keeps the child list in specification order. *)
 From Coq Require Import Arith.
 From AV Require Import Base.Bytes Base.Outcome Hash.HashModel Spec.SpecOps Tree.Heap Tree.Ops Tree.Script Tree.Inv Tree.InvProofsBase
